@@ -405,8 +405,10 @@ def consumer_criteria(tier):
         crits.append((BoolExpr(Cond("A", op, right_param="S")),))
         crits.append((BoolExpr(Cond("A", op, right_param="F")),))       # int vs float
         crits.append((BoolExpr(Cond("F", op, right_param="A")),))       # float vs int
-        crits.append((BoolExpr(Cond("C", op, right_param="A", left_cal=True, right_cal=True)),))  # calibrated float vs int
-        crits.append((BoolExpr(Cond("C", op, right_param="A", left_cal=False, right_cal=False)),))
+        for lc, rc in itertools.product((True, False), repeat=2):   # every selector combination, in both operand orders
+            crits.append((BoolExpr(Cond("C", op, right_param="A", left_cal=lc, right_cal=rc)),))  # (calibrated) float vs int
+            crits.append((BoolExpr(Cond("A", op, right_param="C", left_cal=lc, right_cal=rc)),))
+            crits.append((BoolExpr(Cond("E", "==" if op in ("==", "!=") else "!=", right_param="E", left_cal=lc, right_cal=lc)),))
         crits.append((BoolExpr(Cond("E", op, right_value="a", right_cal=False)),))
         crits.append((BoolExpr(Cond("E", op, right_value="1", left_cal=False, right_cal=False)),))
     # trees
